@@ -43,7 +43,7 @@ def shoelace(poly):
 class Poly:
     def __init__(self, rng, deg, dim):
         self.terms = [(rng.randint(-3, 3), i, j, k) for i, j, k in itertools.product(range(deg + 1), repeat=3)
-                      if i + j + k <= deg and (dim == 3 or k == 0) and (dim >= 2 or j == 0)]
+                      if not (i + j + k > deg) and (dim == 3 or k == 0) and (dim >= 2 or j == 0)]
 
     def __call__(self, X):
         return sum(c * X[:, 0] ** i * X[:, 1] ** j * X[:, 2] ** k for c, i, j, k in self.terms)
@@ -125,7 +125,7 @@ def main():
         lines.append("rot " + " ".join(fs(v) for v in (k[0], k[1], k[2], np.cos(th), np.sin(th))))
         expect.append(("rot", R))
         res.case(("rotmat", tuple(d), round(th, 3)))
-        if np.abs(R @ R.T - np.eye(3)).max() > 1e-13 or abs(np.linalg.det(R) - 1) > 1e-13 or np.abs(R - rodrigues(d, th)).max() > 1e-13:
+        if not (np.abs(R @ R.T - np.eye(3)).max() <= 1e-13) or not (abs(np.linalg.det(R) - 1) <= 1e-13) or not (np.abs(R - rodrigues(d, th)).max() <= 1e-13):
             res.fail("rotation matrix", "_Rotation_matrix is not the rotation about the axis by the angle", dict(axis=d.tolist(), theta=th))
 
     def moves(dim):
@@ -158,16 +158,16 @@ def main():
             res.case((et, mk, "measure"))
             res.count(f"move:{mk}")
             res.count(f"elem:{et}")
-            if np.abs(mesh.coord - pmap(X0)).max() > 1e-10:
+            if not (np.abs(mesh.coord - pmap(X0)).max() <= 1e-10):
                 res.fail(f"mesh mover {mk}", f"nodes moved by up to {np.abs(mesh.coord - pmap(X0)).max():.2e} away from the transformation", ident)
                 continue
-            stale = [str(g.elemType) for g in mesh.dict_groupElem.values() if np.abs(np.asarray(g.coord) - mesh.coord[g.nodes] if hasattr(g, "nodes") and len(g.coord) != mesh.Nn else np.asarray(g.coord) - mesh.coord).max() > 1e-10]
+            stale = [str(g.elemType) for g in mesh.dict_groupElem.values() if not (np.abs(np.asarray(g.coord) - mesh.coord[g.nodes] if hasattr(g, "nodes") and len(g.coord) != mesh.Nn else np.asarray(g.coord) - mesh.coord).max() <= 1e-10)]
             if stale:
                 res.fail(f"element group not moved {mk}", f"groups {stale} keep the old coordinates after the mesh was moved", ident)
-            if abs(mesh.area - abs(A0)) > 1e-9 * abs(A0):
+            if not (abs(mesh.area - abs(A0)) <= 1e-9 * abs(A0)):
                 res.fail(f"area elem={et} move={mk}", f"mesh.area = {mesh.area}, exact polygon area = {abs(A0)}", ident)
             want_c = pmap(c0[None, :])[0]
-            if np.abs(np.asarray(mesh.center) - want_c).max() > 1e-9:
+            if not (np.abs(np.asarray(mesh.center) - want_c).max() <= 1e-9):
                 res.fail(f"center elem={et} move={mk}", f"mesh.center = {np.asarray(mesh.center).tolist()}, exact centroid = {want_c.tolist()}", ident)
             # normals
             tot, fl = boundary_integrals(mesh)
@@ -175,16 +175,16 @@ def main():
             res.case((et, mk, "normals"))
             if bad_unit:
                 res.fail("normals not unit dim=2", "boundary normals are not unit vectors", ident)
-            if np.abs(tot).max() > 1e-9:
+            if not (np.abs(tot).max() <= 1e-9):
                 res.fail("normals not closed dim=2", f"Σ ∫ n dS = {tot.tolist()} over the whole boundary", ident)
-            if abs(abs(fl) - 2 * abs(A0)) > 1e-9 * abs(A0):
+            if not (abs(abs(fl) - 2 * abs(A0)) <= 1e-9 * abs(A0)):
                 res.fail("normal flux magnitude dim=2", f"|Σ ∫ x·n dS| = {abs(fl)} but 2 × area = {2 * abs(A0)}", ident)
             elif fl < 0:
                 res.fail("normals not outward dim=2", f"flux of the position vector through the boundary = {fl} = -2 x area: the boundary normals point inward (move: {mk})", ident)
             detQ = np.linalg.det(Q)
             for id_, g in enumerate(mesh.Get_list_groupElem(1)):
                 n1 = np.asarray(g.Get_normals_e_pg("mass"))
-                if np.abs(n1 - detQ * base_normals[id_] @ Q.T).max() > 1e-10:
+                if not (np.abs(n1 - detQ * base_normals[id_] @ Q.T).max() <= 1e-10):
                     res.fail(f"normals do not follow the move {mk} dim=2", "n' != det(Q) Q n on the moved mesh", ident)
                     break
             if mk in ("none", "reflection"):
@@ -221,7 +221,7 @@ def main():
                         res.fail(f"point location raises with elements={oname}", f"{type(ex).__name__}: {str(ex)[:150]}", dict(ident, elements=oname))
                         continue
                     erre = np.abs(gote - want) / (1 + np.abs(want).max())
-                    if erre.max() > tol:
+                    if not (erre.max() <= tol):
                         i = int(erre.argmax())
                         res.fail(f"point evaluation with the elements argument listed {oname}", f"degree-{deg} field evaluated at a located {kinds[i]} point with elements={oname} differs by {erre.max():.2e} (relative); the default search is right",
                                  dict(ident, degree=deg, elements=oname, point=pts[i].tolist()))
@@ -229,7 +229,7 @@ def main():
             res.case((et, mk, "location"))
             for nm, arr in (("batch", got), ("single", one)):
                 err = np.abs(arr - want) / (1 + np.abs(want).max())
-                if err.max() > tol:
+                if not (err.max() <= tol):
                     i = int(err.argmax())
                     if diagnose(mesh, pts, vals, want, tol):
                         res.fail("point location: element not adjacent to the nearest node", f"the point {pts[i].tolist()} lies in an element that does not touch its nearest node: Evaluate_dofsValues_at_coordinates returns {arr[i]} instead of {want[i]} ({nm} query; correct when all elements are searched)", dict(ident, degree=deg, point=pts[i].tolist()))
@@ -263,14 +263,14 @@ def main():
                 res.case((et, mk, shape, "measure"))
                 res.count(f"move:{mk}")
                 res.count(f"elem:{et}")
-                if np.abs(mesh.coord - pmap(X0)).max() > 1e-10:
+                if not (np.abs(mesh.coord - pmap(X0)).max() <= 1e-10):
                     res.fail(f"mesh mover {mk}", f"nodes moved by up to {np.abs(mesh.coord - pmap(X0)).max():.2e} away from the transformation", ident)
                     continue
                 curved_ok = shape == "box" or et in M.TETRA   # a tapered hexahedron / prism is not polynomially exact at low order: compare loosely
                 tolv = 1e-9 if curved_ok else 2e-2
-                if abs(mesh.volume - vol0) > tolv * vol0:
+                if not (abs(mesh.volume - vol0) <= tolv * vol0):
                     res.fail(f"volume elem={et} move={mk}", f"mesh.volume = {mesh.volume}, exact = {vol0}", ident)
-                if c0 is not None and np.abs(np.asarray(mesh.center) - pmap(c0[None, :])[0]).max() > 1e-9:
+                if c0 is not None and not (np.abs(np.asarray(mesh.center) - pmap(c0[None, :])[0]).max() <= 1e-9):
                     res.fail(f"center elem={et} move={mk}", f"mesh.center = {np.asarray(mesh.center).tolist()}", ident)
                 if shape == "box":
                     tot, fl = boundary_integrals(mesh)
@@ -279,9 +279,9 @@ def main():
                     ok_follow = all(np.abs(np.asarray(g.Get_normals_e_pg("mass")) - detQ * b @ Q.T).max() < 1e-10 for g, b in zip(mesh.Get_list_groupElem(2), base_normals))
                     if not ok_follow:
                         res.fail(f"normals do not follow the move {mk} dim=3", "n' != det(Q) Q n on the moved mesh", ident)
-                    if np.abs(tot).max() > 1e-9:
+                    if not (np.abs(tot).max() <= 1e-9):
                         res.fail("normals not closed dim=3", f"Σ ∫ n dS = {np.round(tot, 6).tolist()} over the whole boundary of an extruded box", ident)
-                    elif abs(fl - 3 * vol0) > 1e-9 * vol0:
+                    elif not (abs(fl - 3 * vol0) <= 1e-9 * vol0):
                         res.fail("normals not outward dim=3", f"flux of the position vector = {fl}, expected 3 x volume = {3 * vol0}", ident)
                 # point location
                 g = mesh.Get_list_groupElem(3)[0]
@@ -302,7 +302,7 @@ def main():
                 res.case((et, mk, shape, "location"))
                 for nm, arr in (("batch", got), ("single", one)):
                     err = np.abs(arr - want) / (1 + np.abs(want).max())
-                    if err.max() > tol:
+                    if not (err.max() <= tol):
                         i = int(err.argmax())
                         if diagnose(mesh, pts, vals, want, tol):
                             res.fail("point location: element not adjacent to the nearest node", f"the point {pts[i].tolist()} lies in an element that does not touch its nearest node: Evaluate_dofsValues_at_coordinates returns {arr[i]} instead of {want[i]} ({nm} query; correct when all elements are searched)", dict(ident, degree=deg, point=pts[i].tolist()))
@@ -334,7 +334,7 @@ def main():
                 res.fail(f"point location raises {sname} elem={et}", f"{type(ex).__name__}: {str(ex)[:150]}", dict(elemType=et, step=sname))
                 break
             errf = np.abs(gotf - pf(ptsf)).max() / (1 + np.abs(pf(ptsf)).max())
-            if errf > 1e-6:
+            if not (errf <= 1e-6):
                 res.fail(f"point evaluation on a mesh moved after an earlier point location elem={et}", f"{sname}: a linear field evaluated at {len(ptsf)} element centroids differs by {errf:.2e} (relative); a point had been located on this mesh before it was moved",
                          dict(elemType=et, step=sname, Ne=int(gf.Ne)))
                 break
@@ -353,11 +353,11 @@ def main():
             res.count("reconstructed-boundary")
             tot, fl = boundary_integrals(mesh)
             barea = sum(float(np.asarray(g.Get_weightedJacobian_e_pg("mass")).sum()) for g in mesh.Get_list_groupElem(2))
-            if abs(barea - 13.0) > 1e-9:
+            if not (abs(barea - 13.0) <= 1e-9):
                 res.fail(f"reconstructed boundary area elem={et}", f"area of the rebuilt boundary of the 2 x 1 x 1.5 box = {barea}, exact = 13", ident)
-            elif np.abs(tot).max() > 1e-9:
+            elif not (np.abs(tot).max() <= 1e-9):
                 res.fail(f"reconstructed boundary not closed elem={et}", f"Σ ∫ n dS = {np.round(tot, 6).tolist()} over the boundary rebuilt from the element's faces table", ident)
-            elif abs(abs(fl) - 9.0) > 1e-9:
+            elif not (abs(abs(fl) - 9.0) <= 1e-9):
                 res.fail(f"reconstructed boundary flux elem={et}", f"|flux of the position vector| = {abs(fl)}, expected 3 x volume = 9", ident)
             elif fl < 0:
                 res.fail(f"normals not outward dim=3 reconstructed move={mk}", f"flux of the position vector through the rebuilt boundary = {fl} = -3 x volume: the normals point inward (move: {mk})", ident)
@@ -375,11 +375,11 @@ def main():
             ident = dict(mesh=name, move=mvk)
             res.case((name, mvk, "mixed"))
             res.count("mixed-groups")
-            if np.abs(mesh.coord - pmap(X0)).max() > 1e-10:
+            if not (np.abs(mesh.coord - pmap(X0)).max() <= 1e-10):
                 res.fail(f"mesh mover {mvk}", "nodes of a multi-group mesh not moved as the transformation says", ident)
                 continue
             meas, want_meas = (mesh.area, 3.0) if dim == 2 else (mesh.volume, 2.0)
-            if abs(meas - want_meas) > 1e-9:
+            if not (abs(meas - want_meas) <= 1e-9):
                 res.fail(f"measure mixed mesh {name}", f"measure {meas}, exact {want_meas}", ident)
             p = Poly(rng, 1, dim)
             vals = p(mesh.coord)
@@ -398,7 +398,7 @@ def main():
             want = p(pts)
             for nm, arr in (("batch", got), ("single", one)):
                 err = np.abs(arr - want) / (1 + np.abs(want).max())
-                if err.max() > 1e-9:
+                if not (err.max() <= 1e-9):
                     i = int(err.argmax())
                     res.fail(f"point evaluation mixed mesh {name} {nm}", f"linear field evaluated at a located {allkinds[i]} point of a mesh with several element groups differs by {err.max():.2e} (relative)", dict(ident, point=pts[i].tolist()))
                     break
@@ -419,12 +419,12 @@ def main():
         res.case((et, "merged-mirror"))
         res.count("merged-mirror")
         ident = dict(elemType=et, mesh="part + mirrored part merged", polygon=halfpoly)
-        if abs(both.area - 2 * abs(A0)) > 1e-9:
+        if not (abs(both.area - 2 * abs(A0)) <= 1e-9):
             res.fail(f"area merged mirror elem={et}", f"area of a part merged with its mirror image = {both.area}, exact = {2 * abs(A0)}", ident)
         wj = np.concatenate([np.asarray(g.Get_weightedJacobian_e_pg("mass")).ravel() for g in both.Get_list_groupElem(2)])
         if wj.min() <= 0:
             res.fail(f"negative weighted jacobian elem={et}", f"weighted Jacobians of the merged mesh are not all positive (min {wj.min():.3e})", ident)
-        if np.abs(np.asarray(both.center)[:2] - np.array([0.0, shoelace(halfpoly)[1][1]])).max() > 1e-9:
+        if not (np.abs(np.asarray(both.center)[:2] - np.array([0.0, shoelace(halfpoly)[1][1]])).max() <= 1e-9):
             res.fail(f"center merged mirror elem={et}", f"centre {np.asarray(both.center).tolist()} is not on the mirror line at the height of the part's centroid", ident)
 
     # ---------------- surface embedded in 3D ----------------
@@ -437,10 +437,10 @@ def main():
         mesh.Rotate(th, (0.25, 0.5, 0.0), ax)
         res.case((et, "embedded", general))
         ident = dict(elemType=et, embedded=True, axis=list(ax), general_quadrangles=general)
-        if abs(mesh.area - area0) > 1e-9:
+        if not (abs(mesh.area - area0) <= 1e-9):
             res.fail(f"area embedded elem={et}", f"area of the surface rotated out of its plane = {mesh.area}, expected {area0}", ident)
         n = np.asarray(mesh.Get_list_groupElem(2)[0].Get_normals_e_pg("mass"))
-        if np.abs(np.abs(n @ Q[:, 2]) - 1).max() > 1e-10:
+        if not (np.abs(np.abs(n @ Q[:, 2]) - 1).max() <= 1e-10):
             res.fail(f"normals embedded elem={et}", "the normals of the rotated plane surface are not ± Q e_z", ident)
         p = Poly(rng, 1, 3)
         vals = p(mesh.coord)
@@ -448,10 +448,105 @@ def main():
         pts, kinds = sample_points(mesh, g, rng, 3)
         try:
             got = np.asarray(mesh.Evaluate_dofsValues_at_coordinates(pts, vals)).ravel()
-            if np.abs(got - p(pts)).max() > (1e-6 if general else 1e-9) * (1 + np.abs(p(pts)).max()):
+            if not (np.abs(got - p(pts)).max() <= (1e-6 if general else 1e-9) * (1 + np.abs(p(pts)).max())):
                 res.fail(f"point evaluation embedded elem={et}", f"linear field on a surface embedded in 3D differs by {np.abs(got - p(pts)).max():.2e}", ident)
         except Exception as ex:  # noqa: BLE001
             res.fail(f"point location raises embedded elem={et}", f"{type(ex).__name__}: {str(ex)[:150]}", ident)
+
+    # ---------------- the same domain described in another length unit (all coordinates times s) ----------------
+    # measure ~ s^d, centre ~ s, normals unchanged (unit), Σ ∫ n dS ~ s^nd, flux of x ~ s^(nd+1) (nd: dimension of the
+    # groups carrying the normals), located-point evaluation unchanged; reference: the same mesh in units of order 1
+    def _rot_out(m):
+        m.Rotate(53.0, (0.25, 0.5, 0.0), (1, -2, 2))
+        return m
+    unit_cases = [(f"{t} polygon", (lambda t=t: M.mesh_2d(t, polygon=POLYGONS[0], h=1.2)), 2, 1, t) for t in ("TRI3", "QUAD4", "TRI6")]
+    unit_cases += [("QUAD4 rectangle", (lambda: M.mesh_2d("QUAD4", 2.0, 1.0, 0.7)), 2, 1, "QUAD4")]
+    unit_cases += [(f"{t} extruded box", (lambda t=t: M.mesh_3d(t, 2.0, 1.0, 1.5, 1.0, 2)), 3, 2, t) for t in ("TETRA4", "HEXA8", "PRISM6", "TETRA10")]
+    unit_cases += [(f"{t} box, boundary from Surface_reconstruction", (lambda t=t: MeshIO.Surface_reconstruction(M.mesh_3d(t, 2.0, 1.0, 1.5, 1.0, 2))), 3, 2, t) for t in ("TETRA4", "HEXA8", "PRISM6")]
+    unit_cases += [(f"{t} surface rotated out of plane", (lambda t=t: _rot_out(M.mesh_2d(t, 2.0, 1.0, 0.7))), 2, 2, t) for t in ("TRI3", "QUAD4")]
+    if thorough:
+        unit_cases += [(f"{t} extruded box", (lambda t=t: M.mesh_3d(t, 2.0, 1.0, 1.5, 1.0, 2)), 3, 2, t) for t in ("HEXA20", "HEXA27", "PRISM15", "PRISM18")]
+    unit_scales = [("km", 1e3), ("mm", 1e-3), ("um", 1e-6), ("0.1 um", 1e-7), ("nm", 1e-9)]
+
+    def _normal_data(m, nd):
+        ns, tot, fl, ar = [], np.zeros(3), 0.0, 0.0
+        for g in m.Get_list_groupElem(nd):
+            n = np.asarray(g.Get_normals_e_pg("mass"))
+            wJ = np.asarray(g.Get_weightedJacobian_e_pg("mass"))
+            xg = np.asarray(g.Get_GaussCoordinates_e_pg("mass"))
+            ns.append(n.copy())
+            tot += np.einsum("ep,epd->d", wJ, n)
+            fl += np.einsum("ep,epd,epd->", wJ, n, xg)
+            ar += float(wJ.sum())
+        return ns, tot, fl, ar
+
+    for name, build, d, nd, et in unit_cases:
+        try:
+            base = build()
+            base.Translate(0.3, -0.2, 0.7 if (d == 3 or nd == 2) else 0.0)
+            meas1 = float(base.area if d == 2 else base.volume)
+            c1 = np.asarray(base.center, float)
+            ns1, tot1, fl1, ar1 = _normal_data(base, nd)
+            X1 = base.coord.copy()
+        except Exception as ex:  # noqa: BLE001
+            res.fail("length unit: reference mesh raises", f"{type(ex).__name__}: {str(ex)[:150]}", dict(mesh=name))
+            continue
+        pu = Poly(rng, 1, 3 if (d == 3 or nd == 2) else 2)
+        for uname, s in unit_scales:
+            ident = dict(mesh=name, elemType=et, unit=uname, scale=s, note="mesh built in units of order 1, translated by (0.3, -0.2, 0.7 or 0), then mesh.coord = mesh.coord * scale")
+            res.case((name, uname, "length unit"))
+            res.count("length-unit")
+            try:
+                mesh = build()
+                mesh.Translate(0.3, -0.2, 0.7 if (d == 3 or nd == 2) else 0.0)
+                if mesh.coord.shape != X1.shape or not (np.abs(mesh.coord - X1).max() <= 1e-12):
+                    mesh = base.copy()          # the mesher is not reproducible: scale a copy
+                mesh.coord = X1 * s
+                meas = float(mesh.area if d == 2 else mesh.volume)
+                cs = np.asarray(mesh.center, float)
+                ns, tot, fl, ar = _normal_data(mesh, nd)
+            except Exception as ex:  # noqa: BLE001
+                res.fail(f"length unit: measure / normals raise dim={d}", f"{type(ex).__name__}: {str(ex)[:150]}", ident)
+                continue
+            err = abs(meas / s**d - meas1) / meas1
+            if not (err <= 1e-9):
+                res.fail(f"measure does not scale with the length unit dim={d}", f"{name} in {uname}: measure / s^{d} = {meas / s**d} but {meas1} in units of order 1 (relative error {err:.2e})", ident)
+            err = np.abs(cs / s - c1).max()
+            if not (err <= 1e-9):
+                res.fail(f"center does not scale with the length unit dim={d}", f"{name} in {uname}: center / s = {(cs / s).tolist()} but {c1.tolist()} in units of order 1", ident)
+            err = max(float(np.abs(np.linalg.norm(n, axis=-1) - 1).max()) for n in ns)
+            if not (err <= 1e-10):
+                res.fail(f"normals not unit after a change of length unit dim={d}" if nd != d else "normals not unit after a change of length unit embedded surface",
+                         f"{name} in {uname} (coordinates x {s:g}): max | |n| - 1 | = {err:.3e} over the Gauss points of the groups of dimension {nd}", ident)
+                continue
+            err = max(float(np.abs(n - n1).max()) for n, n1 in zip(ns, ns1))
+            if not (err <= 1e-9):
+                res.fail(f"normals change with the length unit dim={d}", f"{name} in {uname}: the normals differ by {err:.2e} from those of the same mesh in units of order 1", ident)
+            err = abs(ar / s**nd - ar1) / ar1
+            if not (err <= 1e-9):
+                res.fail(f"boundary measure does not scale with the length unit dim={d}", f"{name} in {uname}: Σ ∫ dS / s^{nd} = {ar / s**nd}, {ar1} in units of order 1", ident)
+            err = np.abs(tot / s**nd - tot1).max() / ar1
+            if not (err <= 1e-9):
+                res.fail(f"normal closure changes with the length unit dim={d}", f"{name} in {uname}: Σ ∫ n dS / s^{nd} = {(tot / s**nd).tolist()}, {tot1.tolist()} in units of order 1", ident)
+            err = abs(fl / s**(nd + 1) - fl1) / (ar1 + abs(fl1))
+            if not (err <= 1e-9):
+                res.fail(f"normal flux changes with the length unit dim={d}", f"{name} in {uname}: Σ ∫ x·n dS / s^{nd + 1} = {fl / s**(nd + 1)}, {fl1} in units of order 1", ident)
+            if "Surface_reconstruction" in name and not (abs(fl / (3 * meas) - 1) <= 1e-9):
+                res.fail("reconstructed boundary flux after a change of length unit", f"{name} in {uname}: flux of the position vector / (3 x volume) = {fl / (3 * meas)}, expected 1", ident)
+            # point location: a linear field of x / s (general quadrangles included: the iterative inverse map must not depend on the unit)
+            g = mesh.Get_list_groupElem(d)[0]
+            vals = pu(mesh.coord / s)
+            pts, kinds = sample_points(mesh, g, rng, 3)
+            want = pu(pts / s)
+            try:
+                got = np.asarray(mesh.Evaluate_dofsValues_at_coordinates(pts, vals)).ravel()
+            except Exception as ex:  # noqa: BLE001
+                res.fail(f"point location raises after a change of length unit dim={d}", f"{type(ex).__name__}: {str(ex)[:150]}", dict(ident, points=(pts / s).tolist()))
+                continue
+            errp = np.abs(got - want) / (1 + np.abs(want).max())
+            if not (errp.max() <= 1e-6):
+                i = int(errp.argmax())
+                res.fail(f"point evaluation after a change of length unit dim={d}", f"{name} in {uname}: linear field at a located {kinds[i]} point: {got[i]} instead of {want[i]}", dict(ident, point_over_scale=(pts[i] / s).tolist()))
 
     # ---------------- witness of the nearest-node search (recorded finding) ----------------
     from EasyFEA.FEM import Mesh
@@ -464,7 +559,7 @@ def main():
     pw = np.array([[4, 0.05, 0.0]])
     res.case(("nearest-node witness",))
     gotw = float(np.asarray(mw.Evaluate_dofsValues_at_coordinates(pw, vw)).ravel()[0])
-    if abs(gotw - 8.85) > 1e-9:
+    if not (abs(gotw - 8.85) <= 1e-9):
         res.fail("point location: element not adjacent to the nearest node", f"two flat triangles (0,0)-(8,0)-(4,0.5) and (0,0)-(4,-0.3)-(8,0): the point (4, 0.05) lies in the first one but its nearest node (4,-0.3) belongs to the second only: "
                  f"Evaluate_dofsValues_at_coordinates returns {gotw} instead of 8.85", dict(mesh="two flat TRI3", point=[4, 0.05, 0.0]))
 
@@ -480,11 +575,11 @@ def main():
                 res.disagree(kind, dict(model=ans[:80]))
                 continue
             if kind == "rot":
-                if np.abs(np.array(vals).reshape(3, 3) - data).max() > 1e-13:
+                if not (np.abs(np.array(vals).reshape(3, 3) - data).max() <= 1e-13):
                     res.disagree("rotation-matrix", dict(maxdiff=float(np.abs(np.array(vals).reshape(3, 3) - data).max())))
             else:
                 fl, tot, ident = data
-                if abs(vals[0] - fl) > 1e-9 * (1 + abs(fl)) or abs(vals[2] - tot[0]) + abs(vals[3] - tot[1]) > 1e-9:
+                if not (abs(vals[0] - fl) <= 1e-9 * (1 + abs(fl))) or not (abs(vals[2] - tot[0]) + abs(vals[3] - tot[1]) <= 1e-9):
                     res.disagree("boundary-normals", dict(ident, model_flux=vals[0], real_flux=fl))
     res.search_note = "measures, movers, normals (up to the recorded orientation findings) and point evaluations agree on the sampled meshes"
     res.write("polygon meshes (convex, non-convex, general quadrilateral) of every 2D element type and extruded boxes (also tapered: non-affine hexahedra / prisms) of every 3D element type, "
